@@ -104,13 +104,27 @@ def id_agreement_rule(rule, c, fname, funcs, exceptions=None):
             while par.get(a, a) != a:
                 a = par[a]
             return a
-        for a, b in re.findall(r"MAT_ID\s*\(\s*(\w+)\s*\)\s*!=\s*MAT_ID\s*\(\s*(\w+)\s*\)", t):
+        IDX = r"(?:(?:MAT_ID|X_ID|SP_ID)\s*\(\s*(\w+)\s*\)|\b(\w+)\s*->\s*id\b)"
+        # locals holding the id of a matrix: `int id = MAT_ID(A);`
+        alias = {}
+        for m_ in re.finditer(r"\b(\w+)\s*=\s*" + IDX + r"\s*[;,]", t):
+            alias[m_.group(1)] = m_.group(2) or m_.group(3)
+        for m_ in re.finditer(IDX + r"\s*[!=]=\s*" + IDX, t):
+            a, b = m_.group(1) or m_.group(2), m_.group(3) or m_.group(4)
             par[find(a)] = find(b)
+        for m_ in re.finditer(IDX + r"\s*[!=]=\s*(\w+)\b", t):
+            a, v = m_.group(1) or m_.group(2), m_.group(3)
+            if v in alias:
+                par[find(a)] = find(alias[v])
+        for m_ in re.finditer(r"\b(\w+)\s*[!=]=\s*" + IDX, t):
+            v, a = m_.group(1), m_.group(2) or m_.group(3)
+            if v in alias:
+                par[find(a)] = find(alias[v])
         const_tests = set()
-        for a, cst in re.findall(r"MAT_ID\s*\(\s*(\w+)\s*\)\s*[!=]=\s*(INT|DOUBLE|COMPLEX)\b", t):
-            const_tests.add(a)
-        for a, cst in re.findall(r"\b(\w+)\s*->\s*id\s*[!=]=\s*(INT|DOUBLE|COMPLEX)\b", t):
-            const_tests.add(a)
+        for m_ in re.finditer(IDX + r"\s*[!=]=\s*(?:INT|DOUBLE|COMPLEX)\b", t):
+            const_tests.add(m_.group(1) or m_.group(2))
+        for m_ in re.finditer(r"\b(?:INT|DOUBLE|COMPLEX)\s*[!=]=\s*" + IDX, t):
+            const_tests.add(m_.group(1) or m_.group(2))
         for sw in cf.walk(node):
             if sw.get("k") != "SwitchStmt":
                 continue
@@ -237,13 +251,30 @@ def sibling_return_rule(rule, c, fname, table_funcs):
                 pairs.append((f, b + f[len(a):]))
 
     def quick(fn):
+        """the set of top-level disjuncts of all quick-return conditions (`if (a) return; if (b || c) return;` = {a, b, c})"""
         t = _ftext(c, fn)
-        out = []
+        out = set()
         for m in re.finditer(r"\bif\s*\(", t):
             j = _bal(t, m.end() - 1)
             if j > 0 and re.match(r"\s*return\s+Py_BuildValue\s*\(", t[j + 1:]):
-                out.append("".join(t[m.end():j].split()))
-        return out
+                cond = t[m.end():j]
+                depth, cur = 0, ""
+                k = 0
+                while k < len(cond):
+                    ch = cond[k]
+                    if ch == "(":
+                        depth += 1
+                    elif ch == ")":
+                        depth -= 1
+                    if depth == 0 and cond[k:k + 2] == "||":
+                        out.add("".join(cur.split()))
+                        cur = ""
+                        k += 2
+                        continue
+                    cur += ch
+                    k += 1
+                out.add("".join(cur.split()))
+        return sorted(out)
     n = 0
     for a, b in pairs:
         if a not in c.funcs or b not in c.funcs:
@@ -399,8 +430,16 @@ def _assigns_only(node, target):
                             and st.targets[0].id == target for st in ls)
 
 
+class _NumNorm(ast.NodeTransformer):
+    def visit_Constant(self, n):
+        if isinstance(n.value, (int, float)) and not isinstance(n.value, bool):
+            return ast.copy_location(ast.Constant(float(n.value)), n)
+        return n
+
+
 def _shape(node):
-    return ast.unparse(node).replace("\n", " ; ")
+    import copy
+    return ast.unparse(_NumNorm().visit(copy.deepcopy(node))).replace("\n", " ; ")
 
 
 # op.fromfile builds every function itself as `_function()` plus coefficients stored into `_linear._coeff` (C14-R4 evaluates exactly
